@@ -136,6 +136,10 @@ func TestC16(t *testing.T) {
 		{"SELECT $2 AS v FROM dual", []any{"x"}, true},
 		{"SELECT $1 AS v FROM dual", []any{"x", "y"}, true},
 		{"SELECT $1 AS v FROM dual", nil, true},
+		// a placeholder that occurs twice does not make up for an argument that is never used
+		{"SELECT $1 AS v, $1 AS w FROM dual", []any{"a", "b"}, true},
+		{"SELECT $1 AS v, $3 AS w FROM dual WHERE $1 = $3", []any{"a", "b", "c", "d"}, true},
+		{"SELECT $2 AS v, $2 AS w, $2 AS x FROM dual", []any{"a", "b"}, true},
 	} {
 		r.Cases++
 		func() {
